@@ -368,7 +368,7 @@ def obligations(tier, seed):
                               ("KF-C15-const", "H.r_const(%s)" % a)],
                           timeout=120 if tier == "quick" else 600, path_timeout=60, funcs=FUNCS))
     quick = ["cls_ann", "cls_meth", "fn", "ann_cls", "cls_cls", "fn_cls", "cls_fn", "meth_meth", "nested", "doc_cls", "kwfn", "fnbody_cls"]
-    ids = quick if tier == "quick" else list(SKELS)
+    ids = quick if tier == "quick" else [k for k in SKELS if not k.startswith(("dup_", "c11_", "c14_"))]
     for sid in ids:
         skel, k = SKELS[sid]
         for L in (1, 2, 3):
